@@ -6,6 +6,8 @@
 #[macro_use]
 pub mod shim { include!("../common_shim.rs"); }
 pub use shim::QueryError;
+// R10: sqlparser::ast::Statement reduced to "a query" (payload irrelevant here) / "any other statement"
+pub enum Statement { Query(Box<u8>), Other }
 include!("literals.rs");
 
 #[cfg(kani)]
@@ -45,6 +47,19 @@ mod proofs {
         assert!(r.is_ok() == plain_digits, "[offset-integer-or-error] OFFSET accepts exactly the unsigned integer literals; anything else is an error value, not a panic");
     }
 
+    // zero, one or two parsed statements (an empty query text or a lone `;` parses to zero statements)
+    #[kani::proof]
+    #[kani::stub(alloc::fmt::format, stub_format)]
+    #[kani::unwind(4)]
+    fn statement_count_never_panics() {
+        let n: u8 = kani::any();
+        kani::assume(n <= 2);
+        let mk = |q: bool| if q { Statement::Query(Box::new(0)) } else { Statement::Other };
+        let (q0, q1): (bool, bool) = (kani::any(), kani::any());
+        let ast = match n { 0 => vec![], 1 => vec![mk(q0)], _ => vec![mk(q0), mk(q1)] };
+        let r = single_query(ast);
+        assert!(r.is_ok() == (n == 1 && q0), "[one-select-or-error] exactly one SELECT statement is accepted; no statement, several statements or another statement give an error value, not a panic");
+    }
     #[kani::proof]
     fn vx_canary() {
         let x: u8 = kani::any();
